@@ -49,6 +49,10 @@ fn parse_with_recovery(b: &Built, toks: &[u32], costs: &[u8], costs_first: bool,
     let t0 = std::time::Instant::now();
     // inserted lexemes must be zero-length and faulty, real ones neither
     let odd = std::cell::Cell::new(0usize);
+    // an inserted lexeme sits at the START of the next real lexeme (replay lexer: an even offset 2i); only when it is
+    // inserted at the end of the input is it at the end of the last lexeme (odd offset 2n-1, or 0 for the empty input)
+    let misplaced = std::cell::Cell::new(0usize);
+    let nreal = toks.len();
     let r = catch(std::panic::AssertUnwindSafe(|| {
         let cf = |t: cfgrammar::TIdx<u32>| -> u8 { costs[usize::from(t)] };
         let pb = RTParserBuilder::<u32, LT>::new(&b.grm, &b.st);
@@ -62,6 +66,9 @@ fn parse_with_recovery(b: &Built, toks: &[u32], costs: &[u8], costs_first: bool,
             &|lexeme: Lx| {
                 if lexeme.faulty() != (lexeme.span().len() == 0) {
                     odd.set(odd.get() + 1);
+                }
+                if lexeme.span().len() == 0 && lexeme.span().start() % 2 == 1 && (lexeme.span().start() + 1) / 2 < nreal {
+                    misplaced.set(misplaced.get() + 1);
                 }
                 Tree::Term(lexeme.tok_id(), lexeme.span().start(), lexeme.span().len(), lexeme.faulty())
             },
@@ -105,6 +112,7 @@ fn parse_with_recovery(b: &Built, toks: &[u32], costs: &[u8], costs_first: bool,
         }
     }
     write!(o, " # ZL {}", odd.get()).unwrap();
+    write!(o, " # ZP {}", misplaced.get()).unwrap();
     write!(o, " # TM {}", ms).unwrap();
 }
 
